@@ -15,6 +15,8 @@ Known findings are recognised by input class (boolean guard on the script / moni
    C18-trie-removed-parked      get/put/rm (or a second iterator) reaches a key that was removed while an
                                 iterator is parked on it
    C18-trie-split-parked        an insertion splits the node an iterator is parked on
+   C18-trie-split-prefix-root   an insertion splits the root node of an open prefix iterator (it then returns
+                                keys without the prefix)
 """
 import os
 from vlib import common as C
@@ -25,6 +27,7 @@ EEXIST, EINVAL, ENOENT = 17, 22, 2
 K_ORDER = "C17-trie-signed-byte-order"
 K_ZOMBIE = "C18-trie-removed-parked"
 K_SPLIT = "C18-trie-split-parked"
+K_SPLITROOT = "C18-trie-split-prefix-root"
 
 _built = {}
 
@@ -503,6 +506,8 @@ CORPUS_C18 = [
     # finding C18-trie-removed-parked: rm of the parked key, then get / put / second rm of it
     ["P 616263 1", "I 0 -", "N 0", "R 616263", "G 616263", "P 616263 9", "N 0", "X 0", "G 616263", "C"],
     ["P 616263 1", "I 0 -", "N 0", "R 616263", "R 616263", "N 0"],
+    # finding C18-trie-split-prefix-root: an insertion splits the root of a prefix iterator above the prefix end
+    ["P 61626364 1", "P 61626365 2", "I 0 616263", "N 0", "P 616278 3", "N 0", "N 0", "N 0", "X 0", "C"],
     # finding C18-trie-split-parked: an insertion splits the parked node
     ["P 616263 1", "I 0 -", "N 0", "P 616264 2", "N 0", "N 0", "N 0", "X 0", "R 616263", "G 616263", "C"],
 ]
@@ -517,6 +522,8 @@ def _split_guard(mraw):
     oog = set()
     if any(l == "g split" for l in mraw):
         oog.add(K_SPLIT)
+    if any(l == "g splitroot" for l in mraw):
+        oog.add(K_SPLITROOT)
     return [l for l in mraw if not l.startswith("g ")], oog
 
 
@@ -543,10 +550,21 @@ def judge(case, lines, crash, mraw, order=True):
     return {"fail": msg, "diff": diff, "oog": oog, "model": mlines}
 
 
-def _still_fails(sub):
-    (lines, crash), = run_impl([sub])
-    msg, _ = monitor(lines)
-    return bool(msg) or bool(crash)
+def _kind(msg):
+    """the failure class of a monitor message: the text after 'op N (...): ' up to the first digit"""
+    import re
+    m = re.sub(r"^op \d+ \([^)]*\): ", "", msg or "")
+    return re.split(r"[0-9\[]", m)[0][:40]
+
+
+def _still_fails_like(kind, order):
+    def f(sub):
+        (lines, crash), = run_impl([sub])
+        if crash:
+            return False
+        msg, _ = monitor(lines, order)
+        return bool(msg) and _kind(msg) == kind
+    return f
 
 
 def evaluate(ctx, res, pid, cases, tags, stats):
@@ -572,14 +590,19 @@ def evaluate(ctx, res, pid, cases, tags, stats):
         if j["fail"]:
             listed = [g for g in j["oog"] if g in known_ids or assume]
             if j["oog"] and listed and j["diff"] is None:
-                g = K_ORDER if "signed-char order" in j["fail"] else sorted(x for x in listed if x != K_ORDER or len(listed) == 1)[-1]
+                if "signed-char order" in j["fail"]:
+                    g = K_ORDER
+                elif "without the prefix" in j["fail"] and K_SPLITROOT in listed:
+                    g = K_SPLITROOT
+                else:
+                    g = sorted(x for x in listed if x != K_ORDER or len(listed) == 1)[-1]
                 res.known_hits[g] = res.known_hits.get(g, 0) + 1
                 stats["out_of_guard_failing"] = stats.get("out_of_guard_failing", 0) + 1
                 continue
             small = case
             if len(case) > 6 and not crash:
                 try:
-                    small = C.shrink_list(case, _still_fails, budget=60)
+                    small = C.shrink_list(case, _still_fails_like(_kind(j["fail"]), pid == "C17"), budget=60)
                 except Exception:
                     small = case
             replay["script"] = small
